@@ -162,7 +162,12 @@ def native_interp(rng, version, ncases):
             data[bi[-1], 1::4] = np.inf
         # whole-micrometre coordinates in the number types a caller may hold them in (trace_header itself returns integer x)
         cdt = [None, np.int16, np.float32, np.int32, np.int64][case % 5] if np.all(np.asarray(hx) == np.round(hx)) and np.all(np.asarray(hy) == np.round(hy)) and np.max(hy) < 32000 else None
-        out = V.interpolate_bad_channels(data.copy(), labels, hx if cdt is None else np.asarray(hx).astype(cdt), hy if cdt is None else np.asarray(hy).astype(cdt))
+        out = V.interpolate_bad_channels(data.copy(), labels, hx, hy)
+        if cdt is not None:
+            out_t = V.interpolate_bad_channels(data.copy(), labels, np.asarray(hx).astype(cdt), np.asarray(hy).astype(cdt))
+            with np.errstate(invalid="ignore"):
+                if out_t.shape != out.shape or not np.allclose(out_t, out, rtol=(1e-9 if cdt is not np.float32 else 1e-5), atol=1e-12, equal_nan=True):
+                    bad.append(("coordinates held as " + np.dtype(cdt).name + " give another repair than the same coordinates as floats", case))
         h = dict(h, x=np.asarray(hx, dtype=float), y=np.asarray(hy, dtype=float))
         keep = ~np.isin(labels, (1, 2))
         if not np.array_equal(out[keep], data[keep], equal_nan=True):
@@ -178,7 +183,7 @@ def native_interp(rng, version, ncases):
                 continue
             srcs = np.flatnonzero(w / w.sum() > 0.005)
             want = (w[srcs] / w[srcs].sum()) @ data[srcs]
-            if not np.allclose(out[c], want, rtol=(1e-9 if cdt is not np.float32 else 1e-5), atol=1e-12):        # (weights computed in single precision from float32 coordinates)
+            if not np.allclose(out[c], want, rtol=1e-9, atol=1e-12):
                 ratio = out[c] / want
                 if np.ptp(ratio) < 1e-9 and 0.5 < ratio.mean() < 1:
                     short.append((case, int(c), float(ratio.mean())))
